@@ -231,7 +231,7 @@ func c06Ops() map[string]func(key string) bt.Op {
 				TrueM: []bt.Mut{mset("f", "d", 1000, "saw-c")}, FalseM: []bt.Mut{mset("f", "c", 1000, "claimed")}}
 		},
 		"RMWinc": func(k string) bt.Op {
-			return bt.Op{Kind: "RMW", Table: tblT, Key: []byte(k), Rules: []bt.Rule{{Fam: "f", Qual: []byte("n"), IsInc: true, Inc: 1}}}
+			return bt.Op{Kind: "RMW", Table: tblT, Key: []byte(k), Rules: []bt.Rule{{Fam: "f", Qual: []byte("n"), IsInc: true, Inc: 1}, {Fam: "f", Qual: []byte("total"), IsInc: true, Inc: 10}}}
 		},
 		"RMWapp": func(k string) bt.Op {
 			return bt.Op{Kind: "RMW", Table: tblT, Key: []byte(k), Rules: []bt.Rule{{Fam: "f", Qual: []byte("s"), Append: []byte("x")}, {Fam: "g", Qual: []byte("s"), Append: []byte("y")}}}
